@@ -299,7 +299,8 @@ def parse_sequence(ctx, an):
             continue
         bc = _base_and_const(s["off"])
         ln = s["len"]
-        if s["kind"] == "rangefrom":
+        if s["kind"] == "rangefrom" and not (ln is not None and ln.is_const()):
+            # (an open-ended slice of a window of known size is a window of known size: `w[12..]` of a 16-byte window is 4 bytes)
             evs.append({"kind": "rest", "base": bc[0], "c": bc[1], "bi": s["bi"], "sid": s["sid"]})
             continue
         if s["kind"] in ("rangeto", "rangefull"):
